@@ -384,6 +384,12 @@ func (c *Collection) WriteCas(key string, exp Exp, cas CAS, val any, opt sgbucke
 		if err != nil {
 			return nil, err
 		}
+		if (opt & sgbucket.Append) != 0 {
+			// the event describes the whole document, not just the appended piece
+			if raw, _, _, err = c.getRaw(txn, key); err != nil {
+				return nil, err
+			}
+		}
 		casOut = newCas
 		return &event{
 			key:        key,
